@@ -810,9 +810,44 @@ def gen_term(r, nfun, depth=None):
     return t
 
 
+# ---- callable classes: ids of the objects of one family and their attribute lookup chains
+#   20 Op (class), 21 SubOp(Op), 22 OtherOp (unrelated class); 30, 32 instances of Op, 31 of SubOp, 33 of OtherOp;
+#   40 the function Op.__call__ (inherited by SubOp), 41 OtherOp.__call__
+FAMILY_CHAIN = {20: [], 21: [20], 22: [], 30: [20], 31: [21, 20], 32: [20], 33: [22]}
+CALL_FUNCTION = {30: 40, 31: 40, 32: 40, 33: 41}
+ROOT_CLASSES = (20, 22)
+
+
+def make_family(rec):
+    """fresh classes per case: the native mark set on a class must not leak into other cases"""
+    class Op:
+        def __init__(self, *a):
+            if a:                       # called as a callable by the adapter: Op(graph)
+                rec.append(a[-1])
+
+        def __call__(self, *a, **kw):
+            rec.append(a[-1] if a else None)
+
+    class SubOp(Op):
+        pass
+
+    class OtherOp:
+        def __init__(self, *a):
+            if a:
+                rec.append(a[-1])
+
+        def __call__(self, *a, **kw):
+            rec.append(a[-1] if a else None)
+    return {20: Op, 21: SubOp, 22: OtherOp, 30: Op(), 31: SubOp(), 32: Op(), 33: OtherOp()}
+
+
 def term_coq(t):
     if t[0] == 'f':
         return '(CFun %s)' % c_nat(t[1])
+    if t[0] == 'c':     # a class or an instance of the family
+        return '(CInst %s %s)' % (c_nat(t[1]), c_list([c_nat(b) for b in FAMILY_CHAIN[t[1]]], 'nat'))
+    if t[0] == 'bc':    # the bound method instance.__call__
+        return '(CMethod (CFun %s))' % c_nat(CALL_FUNCTION[t[1]])
     if t[0] == 'w':     # closure handed out by adapt_func (True) / restore_func (False): ['w', id, adapting, inner]
         return '(CWrap %s %s %s)' % (c_nat(t[1]), c_bool(t[2]), term_coq(t[3]))
     return '(%s %s)' % ('CPartial' if t[0] == 'p' else 'CMethod', term_coq(t[1]))
@@ -887,6 +922,10 @@ def fresh_functions():
 def build_term(t, funs, holder):
     if t[0] == 'f':
         return funs[t[1]]
+    if t[0] in ('c', 'bc'):
+        if not hasattr(holder, 'family'):
+            holder.family = make_family(getattr(holder, 'rec', []))
+        return holder.family[t[1]] if t[0] == 'c' else holder.family[t[1]].__call__
     inner = build_term(t[1], funs, holder)
     if t[0] == 'p':
         return functools.partial(inner, 1)
@@ -915,8 +954,12 @@ def gen_eq_ops(r):
 
 def gen_registry_desc(r):
     nfun = NFUN
-    if r.random() < 0.3:
+    c = r.random()
+    if c < 0.25:
         ops, q = gen_eq_ops(r)
+        return {'ops': ops, 'query': q, 'decorator': r.random() < 0.5}
+    if c < 0.5:
+        ops, q = gen_family_ops(r)
         return {'ops': ops, 'query': q, 'decorator': r.random() < 0.5}
     ops = []
     for _ in range(r.choice([0, 1, 1, 2, 3, 4])):
@@ -930,10 +973,59 @@ def gen_registry_desc(r):
     return {'ops': ops, 'query': q, 'decorator': r.random() < 0.5}
 
 
+BASE_TERMS = ('f', 'c', 'bc', 'w')
+
+
+def _cleanup(reg, objs, holder):
+    """take every mark off again (classes before instances; an inherited-only mark makes unregister raise)"""
+    fam = getattr(holder, 'family', {})
+    extra = [fam[k] for k in (20, 21, 22) if k in fam] + [fam[k] for k in (30, 31, 32, 33) if k in fam] + \
+        [fam[k].__call__ for k in (30, 33) if k in fam]
+    for o in extra + list(objs):
+        try:
+            reg.unregister_native(o)
+        except Exception:
+            pass
+
+
 def _underlying(t):
-    while t[0] != 'f':
+    while t[0] not in BASE_TERMS:
         t = t[1]
     return t[1]
+
+
+def _base(t):
+    while t[0] not in BASE_TERMS:
+        t = t[1]
+    return t
+
+
+def may_unregister(t):
+    """unregister_native on an object that only INHERITS the mark from its class raises AttributeError in the
+    implementation (hasattr finds the class attribute, delattr on the instance fails): not generated"""
+    b = _base(t)
+    return b[0] != 'c' or b[1] in ROOT_CLASSES
+
+
+def gen_family_term(r):
+    c = r.random()
+    t = ['c', r.choice([20, 21, 22])] if c < 0.3 else (['bc', r.choice([30, 31, 33])] if c < 0.45 else
+                                                      ['c', r.choice([30, 31, 32, 33])])
+    for _ in range(r.choice([0, 0, 0, 1, 2])):
+        t = [r.choice(['p', 'm']), t]
+    return t
+
+
+def gen_family_ops(r):
+    """histories about callable classes: the class / a subclass / an instance / a bound __call__ registered"""
+    ops = []
+    for _ in range(r.choice([1, 1, 2, 2, 3, 4])):
+        t = gen_family_term(r)
+        what = r.choice(['reg', 'reg', 'reg', 'unreg'])
+        if what == 'unreg' and not may_unregister(t):
+            what = 'reg'
+        ops.append([what, t])
+    return ops, gen_family_term(r)
 
 
 REG_FN = 'fun c => match c with (ops, q, n, s) => [agree_registry ops q n s; holds_registry ops q n s] end'
@@ -960,11 +1052,7 @@ def run_registry(desc, tamper=False):
     except Exception as ex:   # the registry never raises on these callables
         raised = '%s: %s' % (type(ex).__name__, ex)
     finally:
-        for f in funs:
-            try:
-                reg.unregister_native(f)
-            except Exception:
-                pass
+        _cleanup(reg, funs, holder)
     if tamper:
         native = not native
     ops_c = c_list(['(%s %s)' % ('RegOp' if op == 'reg' else 'UnregOp', term_coq(t)) for op, t in desc['ops']], 'reg_op')
@@ -1078,8 +1166,10 @@ def gen_session_desc(r):
     if r.random() < 0.35:      # both members of a pair of equal callable objects, bare and wrapped
         a, b = r.choice(EQ_PAIRS)
         pool += [['f', a], ['f', b], [r.choice(['p', 'm']), ['f', r.choice([a, b])]]]
+    if r.random() < 0.35:      # a callable class, a subclass, instances, a bound __call__
+        pool += [['c', r.choice([20, 21])], ['c', 30], ['c', r.choice([31, 32, 33])], gen_family_term(r)]
     for t in list(pool)[:2]:
-        q = ['f', _underlying(t)]
+        q = list(_base(t))
         for _ in range(r.choice([0, 1, 2])):
             q = [r.choice(['p', 'm']), q]
         pool.append(q)
@@ -1114,6 +1204,8 @@ def run_session(desc):
                 (register_native if desc['decorator'] else reg.register_native)(o)
                 ops.append(('RegOp', t))
             elif what == 'unreg':
+                if not may_unregister(t):       # see may_unregister: would raise AttributeError
+                    continue
                 reg.unregister_native(o)
                 ops.append(('UnregOp', t))
             elif what == 'partial':
@@ -1142,11 +1234,7 @@ def run_session(desc):
                     objs.append(res)
                     terms.append(['w', fresh, adapting, t])
     finally:
-        for o in objs + funs:
-            try:
-                reg.unregister_native(o)
-            except Exception:
-                pass
+        _cleanup(reg, objs + funs, holder)
     return out
 
 
@@ -1504,7 +1592,7 @@ def run(ctx):
 
 def _depth(t):
     n = 0
-    while t[0] != 'f':
+    while t[0] not in BASE_TERMS:
         t = t[1]
         n += 1
     return n
